@@ -471,6 +471,16 @@ func (b *backendPlaySessionHandler) handleAvailableCommands(p *packet.AvailableC
 }
 
 func filterNode(src brigodier.CommandNode, cmdSrc command.Source) brigodier.CommandNode {
+	return filterNodeSeen(src, cmdSrc, map[brigodier.CommandNode]brigodier.CommandNode{})
+}
+
+// filterNodeSeen copies every node at most once. seen maps a source node to its copy; a node whose
+// redirect is still being resolved maps to nil, so that redirect cycles (e.g. the usual
+// Redirect(&dispatcher.Root)) end instead of recursing forever.
+func filterNodeSeen(src brigodier.CommandNode, cmdSrc command.Source, seen map[brigodier.CommandNode]brigodier.CommandNode) brigodier.CommandNode {
+	if dest, ok := seen[src]; ok {
+		return dest
+	}
 	var dest brigodier.CommandNode
 	_, ok := src.(*brigodier.RootCommandNode)
 	if ok {
@@ -479,15 +489,17 @@ func filterNode(src brigodier.CommandNode, cmdSrc command.Source) brigodier.Comm
 		if !src.CanUse(command.ContextWithSource(context.Background(), cmdSrc)) {
 			return nil
 		}
+		seen[src] = nil
 		builder := src.CreateBuilder().Requires(func(context.Context) bool { return true })
 		if src.Redirect() != nil {
-			builder.Redirect(filterNode(src.Redirect(), cmdSrc))
+			builder.Redirect(filterNodeSeen(src.Redirect(), cmdSrc, seen))
 		}
 		dest = builder.Build()
 	}
+	seen[src] = dest
 
 	src.ChildrenOrdered().Range(func(_ string, sourceChild brigodier.CommandNode) bool {
-		destChild := filterNode(sourceChild, cmdSrc)
+		destChild := filterNodeSeen(sourceChild, cmdSrc, seen)
 		if destChild != nil {
 			dest.AddChild(destChild)
 		}
